@@ -2,9 +2,11 @@ SPECIFICATION FairSpec
 CONSTANTS
   Servers = {"s1", "s2", "s3"}
   NWorkers = 3
+  Q = 3
+  StartFirst = FALSE
   KeyIds = {"k1", "k2"}
   DirectOutcomes = {"ok", "err", "bad"}
   NotaryOutcomes = {"ok", "err", "missing", "bad"}
   HasLocal = TRUE
-INVARIANTS TypeOK ExactUnion EachServerOnce NothingEarly
+INVARIANTS TypeOK ExactUnion EachServerOnce NothingEarly QueueBound
 PROPERTIES Returns
